@@ -13,6 +13,8 @@ use rosu_map::section::hit_objects::{SliderEvent, SliderEventType, SliderEventsI
 
 pub struct C20;
 
+static PAIRS: crate::engine::PairTable = crate::engine::PairTable::new(&["pollute", "abandon", "run"]);
+
 const RATIOS: [f64; 11] = [0.0, 1e-3, 0.01, 0.1, 0.25, 1.0 / 3.0, 0.5, 0.9, 1.0, 1.5, f64::INFINITY];
 const VELS: [f64; 6] = [0.1, 0.5, 1.0, 1.4, 3.6, 10.0];
 const TOTALS: [f64; 5] = [50.0, 100.0, 333.3, 1000.0, 2e5];
@@ -117,8 +119,15 @@ impl Scenario for C20 {
         let mut shared: Vec<SliderEvent> = Vec::new();
         let mut h = Fnv::new();
         let mut dirty = false;
+        let mut prev: Option<usize> = None;
         for (i, op) in plan.ops.iter().enumerate() {
             st.inc("steps.ops_applied");
+            if let Some(k) = PAIRS.idx(&op.k) {
+                if let Some(p) = prev {
+                    st.inc(PAIRS.name(p, k));
+                }
+                prev = Some(k);
+            }
             match op.k.as_str() {
                 "pollute" => {
                     for k in 0..op.iarg(0).clamp(0, 64) {
